@@ -27,6 +27,8 @@ import (
 //     sentph/ack-old-skipped    ACK covering an older skipped number that is not below the lowest tracked packet
 //     accepted (the repaired finding; the former Coq witness is replayed first in every run)
 //     sentph/ack-below-initial-pn  Initial ACK covering a number below the first Initial packet number accepted
+//     sentph/ack-skipped-at-retry  ACK covering the number the generator skipped across ResetForRetry accepted
+//     sentph/migrate-drops-probe-frames  MigratedPath removed an outstanding path probe without any callback (OPEN finding)
 //     sentph/ack-valid-rejected an ACK that covers neither unsent nor skipped numbers was rejected as PROTOCOL_VIOLATION
 //     sentph/timer-not-armed    crypto / confirmed app data outstanding, not amplification limited, alarm unset
 //     sentph/panic              the handler panicked
@@ -102,6 +104,7 @@ type sphRun struct {
 	skipped        []int64 // application-data numbers the harness saw skipped, in order
 	appHi          int64
 	sentSinceReset bool
+	retryGap       int64          // packet number the generator was about to skip when ResetForRetry re-created the space (-1 none)
 	prev           trackedSummary // (sendglue) summary after the previous handler call
 	prevBif        int64
 	ipn            int64
@@ -135,6 +138,7 @@ func newSphRun(w *bufio.Writer, client, validated bool, ipn, period, maxPeriod i
 	r.v = ackhandler.VerifSentPHNew(client, validated, ipn, period, maxPeriod)
 	r.appHi = r.v.AppHighest()
 	r.ipn = ipn
+	r.retryGap = -1
 	r.hdr = fmt.Sprintf("%s %s %s %s %s %s", u.B(client), u.B(validated), u.Z(ipn), u.Z(period), u.Z(maxPeriod), u.Z(r.v.Rnd0))
 	return r
 }
@@ -156,6 +160,11 @@ func (r *sphRun) valid(o *sphOp) bool {
 			return false
 		}
 		if o.probe {
+			for _, id := range o.fs { // detectLostPathProbes calls Handler.OnLost without a nil check
+				if id < 0 {
+					return false
+				}
+			}
 			return o.l == lv1RTT && len(o.sfs) == 0 && len(o.fs) > 0 && !o.mtu
 		}
 		return true
@@ -244,8 +253,13 @@ func (r *sphRun) exec(o *sphOp) (ret int64) {
 	case "drop":
 		r.v.Drop(o.l, o.now)
 	case "retry":
+		gap, pending := r.v.AppGenPendingSkip()
 		o.rnd = r.v.Retry(o.now)
 		r.skipped = nil // the application-data space was re-created
+		r.retryGap = -1
+		if pending {
+			r.retryGap = gap // the generator had decided to skip this number; the new space starts right behind it
+		}
 		r.appHi = r.v.AppHighest()
 		r.sentPNs[2] = map[int64]bool{}
 	case "migrate":
@@ -310,6 +324,9 @@ func (r *sphRun) monitors(o *sphOp, ret int64, before trackedSummary, bifBefore,
 		if o.kind == "drop" || (o.kind == "migrate" && before.probeIDs[id]) {
 			if r.cbCount[id] == 0 {
 				r.exempt[id] = true
+				if o.kind == "migrate" {
+					r.monfail("sentph/migrate-drops-probe-frames", fmt.Sprintf("MigratedPath removed the path probe packet carrying frame %d without reporting the frame (no OnAcked, no OnLost, its space was not discarded)", id))
+				}
 			}
 			continue
 		}
@@ -400,6 +417,14 @@ func (r *sphRun) monitors(o *sphOp, ret int64, before trackedSummary, bifBefore,
 			}
 			if recent < 0 && old < 0 && below >= 0 && !pv {
 				r.belowWindow++
+			}
+			if r.retryGap >= 0 && covers(r.retryGap) {
+				if !pv {
+					r.monfail("sentph/ack-skipped-at-retry", fmt.Sprintf("ACK covering packet number %d, which the generator skipped when ResetForRetry re-created the packet number space, accepted (code %d)", r.retryGap, ret))
+				}
+				if pv {
+					recent = r.retryGap // (for the valid-ack-rejected check below)
+				}
 			}
 			if recent >= 0 && !pv {
 				r.monfail("sentph/ack-skipped", fmt.Sprintf("ACK covering the skipped packet number %d accepted (code %d)", recent, ret))
@@ -901,12 +926,46 @@ func sphFixedTable(w *bufio.Writer) {
 	}
 }
 
+// sphRetryTable: fixed cases. A client sends 0-RTT packets until the application-data generator is about to skip a
+// packet number, then a Retry arrives (ResetForRetry re-creates the space behind the skipped number); the number
+// was deliberately skipped, so an ACK covering it must be a PROTOCOL_VIOLATION.
+func sphRetryTable(w *bufio.Writer) {
+	for variant := 0; variant < 2; variant++ {
+		r := newSphRun(w, true, false, 0, 1, 1)
+		t := int64(1_000_000_000)
+		r.exec(&sphOp{kind: "send", l: lvInitial, now: t, la: -1, fs: []int64{1}, size: 1200})
+		id := int64(10)
+		for i := 0; i < 8; i++ {
+			if _, pending := r.v.AppGenPendingSkip(); pending {
+				break
+			}
+			t += 1_000_000
+			r.exec(&sphOp{kind: "send", l: lv0RTT, now: t, la: -1, sfs: []int64{id}, size: 600})
+			id++
+		}
+		r.exec(&sphOp{kind: "retry", now: t + 5_000_000})
+		gap := r.retryGap
+		r.exec(&sphOp{kind: "send", l: lvInitial, now: t + 6_000_000, la: -1, fs: []int64{2}, size: 1200})
+		pn := r.exec(&sphOp{kind: "send", l: lv0RTT, now: t + 7_000_000, la: -1, sfs: []int64{id}, size: 600})
+		if gap >= 0 {
+			rs := [][2]int64{{gap, pn}}
+			if variant == 1 {
+				rs = [][2]int64{{gap, gap}}
+			}
+			r.exec(&sphOp{kind: "ack", l: lv1RTT, now: t + 30_000_000, ranges: rs})
+		}
+		r.exec(&sphOp{kind: "ack", l: lv1RTT, now: t + 40_000_000, ranges: [][2]int64{{pn, pn}}})
+		fmt.Fprintf(w, "CASE 1 %s\n", r.caseTerm())
+	}
+}
+
 func runSentPH(w *bufio.Writer, seed uint64, n int, _ []string) {
 	root := u.NewRng(seed)
 	sphWitness(w)
 	sphMigrateObservation(w)
 	sphProbeTable(w)
 	sphFixedTable(w)
+	sphRetryTable(w)
 	dist := map[string]int{}
 	if os.Getenv("VERIF_TIER") == "thorough" {
 		// exhaustive small universe: all 4-op histories through the model (both perspectives), all 6-op histories
